@@ -42,7 +42,7 @@ func init() {
 			"the JSON body decoder (encoding/json, C06) is an input of the model: each case states its outcome, computed by encoding/json in the generator and tied by the comparison itself",
 			"the decoding of every header (untyped, primitive, array, flat object; plain and exploded) is computed by the model (decodeHeader) and compared with the real decoder (verif hook) on every case; the one corner left as an input (a schema applied to the empty property name) is never generated",
 			"numbers in schemas and bodies are small integers (no float rounding); header integers range over int64 and beyond; strings are ASCII",
-			"documents are resolved (no nil ResponseRef.Value / SchemaRef.Value); headers use the default (simple, not exploded) serialization; every present header has at least one value and only the first is decoded",
+			"schemas and headers are resolved (no nil SchemaRef.Value / HeaderRef.Value; an unresolved ResponseRef is generated and modelled); headers use the default (simple, not exploded) serialization; every present header has at least one value and only the first is decoded",
 			"no Content-Type whose registered decoder is YAML, CSV, urlencoded, multipart or zip is generated (their outcome would be an input of the model as well)",
 		},
 	})
@@ -148,6 +148,8 @@ func c08ErrClass(err error) any {
 	switch {
 	case r == "status is not supported":
 		return "status"
+	case r == "response has not been resolved":
+		return "unresolved"
 	case r == "failed to read response body":
 		return "bodyRead"
 	case r == "failed to decode response body":
@@ -192,6 +194,10 @@ func runC08(c hx.Case) any {
 		key := jstr(rm, "key")
 		if responses.Value(key) != nil {
 			continue // a Go map holds one entry per key: the first one, as in the model's lookup
+		}
+		if jbool(rm, "unresolved") { // a reference that was never resolved: the entry exists, its Value is nil
+			responses.Set(key, &openapi3.ResponseRef{Ref: "#/components/responses/Missing"})
+			continue
 		}
 		desc := ""
 		resp := &openapi3.Response{Description: &desc}
@@ -562,6 +568,18 @@ func genC08(ctx *hx.Ctx, emit func(hx.Case)) {
 				}
 				emit(c08Case("GET", st, resps, hd, "", c08Err, 1))
 			}
+		}
+	}
+	// an entry whose reference was never resolved, chosen or not, under every option
+	for _, st := range []int{200, 201, 404, 301} {
+		for o := 0; o < 16; o++ {
+			un := c08Resp("2XX", nil, nil)
+			un["unresolved"] = true
+			ok := c08Resp("200", []any{c08Hdr("X-K", true, c08S("type", "string"), c08Err)}, nil)
+			def := c08Resp("default", nil, nil)
+			def["unresolved"] = true
+			emit(c08Case("GET", st, []any{un, ok, def}, []any{[]any{"X-K", "v"}}, "", c08Err, o))
+			emit(c08Case("HEAD", st, []any{un, def}, []any{}, "", c08Err, o))
 		}
 	}
 	// other class patterns
@@ -961,7 +979,11 @@ func c08Random(r *hx.Rng, kinds []c08HK) hx.Case {
 				content = append(content, c08MT(m, sch))
 			}
 		}
-		resps = append(resps, c08Resp(k, hs, content))
+		rs := c08Resp(k, hs, content)
+		if r.Chance(4) {
+			rs["unresolved"] = true
+		}
+		resps = append(resps, rs)
 	}
 	status := hx.Pick(r, []int{200, 200, 201, 204, 404, 400, 500, 302, 304, 301, 100, 600, 99})
 	method := hx.Pick(r, []string{"GET", "GET", "GET", "GET", "POST", "DELETE", "OPTIONS", "head", "Head"}) // only the exact "HEAD" is skipped
